@@ -406,7 +406,9 @@ fn exec(line: &str, st: &mut State) -> (String, Option<String>, bool) {
 // every void element of ssr_node.rs is in the list (the whole table is a finite quantifier of C08), plus
 // look-alikes that are NOT void (tracks, wbrx, basefont, colgroup, inputx)
 const TAGS: &[&str] = &["div", "p", "span", "ul", "li", "a", "button", "h1", "section", "svg", "path", "foreignObject", "my-element", "x-y", "br", "img", "input", "hr", "textarea", "table", "td",
-    "area", "base", "col", "embed", "link", "meta", "param", "source", "track", "wbr", "command", "keygen", "menuitem", "tracks", "wbrx", "basefont", "colgroup", "inputx"];
+    "area", "base", "col", "embed", "link", "meta", "param", "source", "track", "wbr", "command", "keygen", "menuitem", "tracks", "wbrx", "basefont", "colgroup", "inputx",
+    // elements whose content browsers read as raw text / RCDATA: sycamore escapes text in them like anywhere else
+    "script", "style", "title", "noscript", "xmp"];
 const ATTRS: &[&str] = &["class", "id", "href", "data-x", "aria-label", "viewBox", "value", "style", "xlink:href", "title"];
 const BATTRS: &[&str] = &["checked", "disabled", "hidden", "open", "selected"];
 const PIECES: &[&str] = &["<", ">", "&", "\"", "'", "--", "-->", "<!--", "]]>", "</script", "&amp;", "&#", "&lt;", "<b>", "</div>", "a", "b", " ", "=", "/", "x=\"y\"", "\u{e9}", "\u{1F600}", "\u{0}", "\u{FFFF}", "\u{301}", "\n", "\t", "t", "<!-->", "<!--t-->", "<!--/-->"];
